@@ -3,6 +3,7 @@
    nat, positive, N stay Coq datatypes. *)
 Require Extraction.
 From Coq Require Import ExtrOcamlBasic.
+From Coq Require Import ZArith.
 From KV Require Import Lib.LTS Model.Writer.
 Extraction Language OCaml.
 Extraction "writer_model.ml"
@@ -10,4 +11,5 @@ Extraction "writer_model.ml"
   progress_labels stuckb is_env log_of
   C08_limits_holds rejected_sends_nothing_holds verdict_holds
   C01_nil_holds C01_we_holds C01_compl_holds C01_compl_total_holds C01_no_foreign_holds
-  log_is_journal C01_dups_holds C01_holds C07_holds_for C07_holds rejected.
+  log_is_journal C01_dups_holds C01_holds C07_holds_for C07_holds rejected
+  Z.of_N.  (* Z.of_N only so that the shared ocaml/kvio.ml.in finds the type z *)
